@@ -22,6 +22,13 @@ pub const DECORATIONS: &[(&str, &str)] = &[
     ("line-break", "\n"),
     ("annotation", " @note "),
     ("comment-line", " @@ a comment\n"),
+    // an annotation glued to a neighbour (applicable wherever the lexer still gives the same tokens)
+    ("annotation-glued-to-next", " @note"),
+    ("annotation-glued-to-previous", "@note "),
+    // inside the gap that is a list space or a blank line: before the operator's own white space / after it
+    ("annotation-before-the-space", " @note"),
+    ("annotation-after-the-space", "@note "),
+    ("annotation-after-the-space-glued-to-next", "@note"),
 ];
 
 fn tok_class(t: &Tok) -> &'static str {
@@ -112,13 +119,15 @@ fn observe(text: &str, toks: Option<&[Tok]>, input_ids: &[usize]) -> Result<Base
     Ok(Base { tree, values })
 }
 
-fn compare(kind: &str, ctxkey: &str, base_text: &str, base: &Base, var_text: &str, var: Result<Base, &'static str>, ctx: &mut CaseCtx) {
+fn compare(kind: &'static str, ctxkey: &str, base_text: &str, base: &Base, var_text: &str, var: Result<Base, &'static str>, ctx: &mut CaseCtx) {
     match var {
         Err("layout-merge") => ctx.class("rewrite-not-applicable-tokens-merge"),
         Err(why) => {
             ctx.fail(format!("layout:{}:{}:variant-{}", kind, ctxkey, why), format!("{:?} is accepted, its rewrite {:?} is {}", base_text, var_text, why));
         }
         Ok(v) => {
+            // the rewrite was applicable and is judged: one histogram class per rewrite kind
+            ctx.class(kind);
             if v.tree != base.tree {
                 ctx.fail(format!("layout:{}:{}:tree-differs", kind, ctxkey), format!("{:?} parses as {} but its rewrite {:?} parses as {}", base_text, base.tree, var_text, v.tree));
                 return;
@@ -174,7 +183,11 @@ impl C18Check {
             let this_ws = matches!(&toks[at], Tok::Op(o) if o.text == " " || o.text == "\n\n");
             for (name, deco) in DECORATIONS {
                 // next to the list-space / blank-line operator the gap is part of that operator: only widening applies
-                if (prev_ws || this_ws) && !matches!(*name, "wide-space" | "tab" | "space-tab-space") {
+                let for_ws_gap = matches!(*name, "wide-space" | "tab" | "space-tab-space") || (this_ws && *name == "annotation-before-the-space") || (prev_ws && !this_ws && name.starts_with("annotation-after-the-space"));
+                if (prev_ws || this_ws) && !for_ws_gap {
+                    continue;
+                }
+                if !(prev_ws || this_ws) && name.contains("-the-space") {
                     continue;
                 }
                 if !take(40) {
@@ -383,7 +396,7 @@ impl Check for C18Check {
     }
     fn rule(&self) -> String {
         "Programs: every core-language AST with at most k nodes (k=3 quick, 4 thorough; the C01 enumerator) printed with single spaces, plus random larger ASTs. For each accepted program every single rewrite is applied at every position (random programs: a tape-chosen subset of positions): \
-         each gap between two tokens is replaced by no space / one space / several spaces / a tab / a line break / an annotation / a comment line (next to the list-space or blank-line operator only widening with blanks and tabs); each blank line additionally rewritten to hold a space, a tab, or tabs and spaces; trailing or leading white space, annotation or comment line; parentheses around one complete operand; a side-effect block with a constant body after one value. \
+         each gap between two tokens is replaced by no space / one space / several spaces / a tab / a line break / an annotation (spaced, or glued to either neighbour) / a comment line (inside a list-space or blank-line gap: widening with blanks and tabs, an annotation before the operator's white space, after it, or after it and glued to the next token); each blank line additionally rewritten to hold a space, a tab, or tabs and spaces; trailing or leading white space, annotation or comment line; parentheses around one complete operand; a side-effect block with a constant body after one value. \
          A rewrite is applicable only if the lexer still produces the same significant tokens (otherwise counted, not judged) and is meaning-preserving by construction (not applied to a property name after `.`, to a same-kind list item, to an arm of an else chain, or around separators). \
          Oracle (metamorphic): the parse tree modulo Group nodes and side-effect blocks is unchanged and the final value on both data implementations and two inputs is unchanged. \
          Non-trivial = a gap rewrite between tokens of different classes; distinct = distinct (program, position, rewrite)."
